@@ -171,6 +171,20 @@ class Canon:
 
     # ---- C1
     def _lift_ifexp(self, st: ast.stmt) -> ast.stmt:
+        # a conditional expression nested in a small simple statement and evaluated before anything else in it:
+        # `return getattr(o, a if c else b)(x)` == `if c: return getattr(o, a)(x) else: return getattr(o, b)(x)`
+        if isinstance(st, (ast.Return, ast.Assign, ast.Expr)) and st.value is not None and not isinstance(st.value, ast.IfExp) and len(ast.unparse(st)) < 240:
+            for n in ast.walk(st.value):
+                if isinstance(n, ast.IfExp) and not any(isinstance(x, (ast.Lambda, ast.ListComp, ast.DictComp, ast.SetComp, ast.GeneratorExp, ast.IfExp, ast.BoolOp)) and x is not n and any(y is n for y in ast.walk(x)) for x in ast.walk(st.value)):
+                    probe = _replace_node_by_name(st.value, n, "__ifx")
+                    if probe is not None and _evaluated_first(probe, "__ifx"):
+                        arms = []
+                        for arm in (n.body, n.orelse):
+                            c_ = copy.deepcopy(st)
+                            c_.value = _Subst("__ifx", arm).visit(copy.deepcopy(probe))
+                            arms.append(ast.fix_missing_locations(c_))
+                        return _loc(ast.If(n.test, [arms[0]], [arms[1]]), st)
+                    break
         if isinstance(st, ast.Return) and isinstance(st.value, ast.IfExp):
             ie = st.value
             return _loc(ast.If(ie.test, [_loc(ast.Return(ie.body), st)], [_loc(ast.Return(ie.orelse), st)]), st)
@@ -445,6 +459,14 @@ class Canon:
             if not used_k and k_ != v_:
                 st.target = ast.copy_location(ast.Name(v_, ast.Store()), st.target)
                 st.iter = ast.copy_location(ast.Call(ast.Attribute(st.iter.func.value, "values", ast.Load()), [], []), st.iter)
+        # `for k, v in enumerate(S): B` with k unused in B  ==  `for v in S: B`
+        if isinstance(st, ast.For) and isinstance(st.target, ast.Tuple) and len(st.target.elts) == 2 and isinstance(st.target.elts[0], ast.Name) and isinstance(st.iter, ast.Call) and isinstance(st.iter.func, ast.Name) and st.iter.func.id == "enumerate" and len(st.iter.args) == 1 and not st.iter.keywords:
+            k_ = st.target.elts[0].id
+            vnames = {n_.id for n_ in ast.walk(st.target.elts[1]) if isinstance(n_, ast.Name)}
+            used_k = any(isinstance(n_, ast.Name) and n_.id == k_ for b_ in st.body + st.orelse for n_ in ast.walk(b_))
+            if not used_k and k_ not in vnames:
+                st.target = st.target.elts[1]
+                st.iter = st.iter.args[0]
         return st
 
     def _simple(self, st: ast.stmt) -> ast.stmt:
@@ -478,6 +500,16 @@ class Canon:
 class _ExprNorm(ast.NodeTransformer):
     def visit_Lambda(self, node):
         self.generic_visit(node)
+        return node
+
+    def visit_Subscript(self, node):
+        self.generic_visit(node)
+        # {True: X, False: Y}[K] == X if K else Y   (K evidently boolean)
+        d = node.value
+        if isinstance(node.ctx, ast.Load) and isinstance(d, ast.Dict) and len(d.keys) == 2 and all(isinstance(k, ast.Constant) and isinstance(k.value, bool) for k in d.keys) and d.keys[0].value != d.keys[1].value \
+                and (_evidently_bool(node.slice) or isinstance(node.slice, ast.Name)):
+            t, f = (d.values[0], d.values[1]) if d.keys[0].value else (d.values[1], d.values[0])
+            return ast.copy_location(ast.IfExp(node.slice, t, f), node)
         return node
 
     def _flatten_gens(self, node):
@@ -545,6 +577,10 @@ class _ExprNorm(ast.NodeTransformer):
         # (lambda a: body)(x) == body[a := x]  (arguments that are names / attribute chains / constants)
         if isinstance(f, ast.Lambda) and not node.keywords and not (f.args.vararg or f.args.kwarg or f.args.kwonlyargs or f.args.defaults or f.args.posonlyargs) and len(f.args.args) == len(node.args) and all(_alias_expr(a) for a in node.args):
             return ast.copy_location(_ParamSubst({p_.arg: a for p_, a in zip(f.args.args, node.args)}).visit(copy.deepcopy(f.body)), node)
+        # partial(F, a, k=v)(b) == F(a, b, k=v)
+        if isinstance(f, ast.Call) and ((isinstance(f.func, ast.Name) and f.func.id == "partial") or (isinstance(f.func, ast.Attribute) and f.func.attr == "partial" and isinstance(f.func.value, ast.Name) and f.func.value.id == "functools")) \
+                and f.args and not any(isinstance(a, ast.Starred) for a in f.args + node.args) and not any(k.arg is None for k in f.keywords + node.keywords):
+            return self.visit(ast.copy_location(ast.Call(f.args[0], list(f.args[1:]) + list(node.args), list(f.keywords) + list(node.keywords)), node))
         # getattr(o, "name") == o.name
         if isinstance(f, ast.Name) and f.id == "getattr" and len(node.args) == 2 and not node.keywords and isinstance(node.args[1], ast.Constant) and isinstance(node.args[1].value, str) and node.args[1].value.isidentifier():
             return ast.copy_location(ast.Attribute(node.args[0], node.args[1].value, ast.Load()), node)
@@ -937,6 +973,17 @@ def _evaluated_first(e: ast.expr, nm: str) -> bool:
 
 
 # ------------------------------------------------------------------ C6: accumulation loops
+def au_pure(e: ast.expr) -> bool:
+    """The test has no effect worth an iteration more or less: only reads and calls of pure builtins (without `break` an
+    `any()` stops at the first hit, the loop did not — the difference is invisible for such tests)."""
+    for n in ast.walk(e):
+        if isinstance(n, ast.Call) and not (isinstance(n.func, ast.Name) and n.func.id in ("isinstance", "issubclass", "len", "hasattr", "callable", "type", "id", "bool", "str", "int")):
+            return False
+        if isinstance(n, (ast.Await, ast.Yield, ast.YieldFrom, ast.NamedExpr)):
+            return False
+    return True
+
+
 def _loops_to_comprehensions(fn: ast.AST) -> int:
     changed = 0
     for blk in _blocks_of(fn):
@@ -965,6 +1012,29 @@ def _loops_to_comprehensions(fn: ast.AST) -> int:
                         ast.fix_missing_locations(new)
                         blk[i : i + 2] = [new]
                         changed += 1
+                        continue
+            # flag loops: `f = False; for x in I: if P: f = True; break`  ==  `f = any(P for x in I)`  (dually `f = True .. f = False` -> all)
+            if isinstance(st, ast.For) and not st.orelse and i > 0 and isinstance(blk[i - 1], ast.Assign) and len(blk[i - 1].targets) == 1 and isinstance(blk[i - 1].targets[0], ast.Name) \
+                    and isinstance(blk[i - 1].value, ast.Constant) and isinstance(blk[i - 1].value.value, bool):
+                fl = blk[i - 1].targets[0].id
+                body = [x for x in st.body if not isinstance(x, ast.Pass)]
+                if len(body) == 1 and isinstance(body[0], ast.If) and not [x for x in body[0].orelse if not isinstance(x, ast.Pass)]:
+                    tb = [x for x in body[0].body if not isinstance(x, ast.Pass)]
+                    if tb and isinstance(tb[-1], ast.Break):
+                        tb = tb[:-1]
+                    if len(tb) == 1 and isinstance(tb[0], ast.Assign) and len(tb[0].targets) == 1 and isinstance(tb[0].targets[0], ast.Name) and tb[0].targets[0].id == fl \
+                            and isinstance(tb[0].value, ast.Constant) and isinstance(tb[0].value.value, bool) and tb[0].value.value != blk[i - 1].value.value \
+                            and not _uses(body[0].test, fl) and not _uses(st.iter, fl) and au_pure(body[0].test):
+                        gen = ast.comprehension(st.target, st.iter, [], 0)
+                        if tb[0].value.value:
+                            val = ast.Call(ast.Name("any", ast.Load()), [ast.GeneratorExp(body[0].test, [gen])], [])
+                        else:
+                            val = ast.Call(ast.Name("all", ast.Load()), [ast.GeneratorExp(_negate(body[0].test), [gen])], [])
+                        new = _loc(ast.Assign([ast.Name(fl, ast.Store())], val), st)
+                        ast.fix_missing_locations(new)
+                        blk[i - 1 : i + 1] = [new]
+                        changed += 1
+                        i -= 1
                         continue
             # `x = [fresh list]; x.sort(..)`  ==  `x = sorted([fresh list], ..)`   (likewise `.reverse()` -> list(reversed(..)))
             if isinstance(st, ast.Expr) and isinstance(st.value, ast.Call) and isinstance(st.value.func, ast.Attribute) and st.value.func.attr == "sort" and isinstance(st.value.func.value, ast.Name) and not st.value.args and i > 0:
@@ -1130,6 +1200,8 @@ def _returns_to(body: List[ast.stmt], make) -> Optional[List[ast.stmt]]:
             if b is None:
                 return None
             out.append(_loc(ast.With(s.items, b), s))
+        elif isinstance(s, (ast.FunctionDef, ast.AsyncFunctionDef, ast.ClassDef)):
+            out.append(s)  # a local definition: its returns are its own
         else:
             if _has_return(s):
                 return None
@@ -1168,6 +1240,14 @@ def inline_helpers(fn: ast.FunctionDef, helpers: Dict[str, Tuple[ast.FunctionDef
     (`h(..)`, `x = h(..)`, `return h(..)`) take the helper's whole body; a call nested in an expression is
     replaced when the helper's body is a single `return <expr>`."""
     changed = 0
+    # `K.m(obj, args)` with a new helper method m of class K (an unbound method taken out of a dispatch table) is `obj.m(args)`
+    for n in ast.walk(fn):
+        if isinstance(n, ast.Call) and isinstance(n.func, ast.Attribute) and isinstance(n.func.value, ast.Name) and n.args and not isinstance(n.args[0], ast.Starred):
+            hk = f"{n.func.value.id}.{n.func.attr}"
+            if hk in helpers and helpers[hk][1] and _alias_expr(n.args[0]) and n.func.value.id == cls:
+                n.func.value = n.args[0]
+                n.args = n.args[1:]
+                changed += 1
     for _round in range(4):
         did = False
         for blk in _blocks_of(fn):
@@ -1208,10 +1288,20 @@ def inline_helpers(fn: ast.FunctionDef, helpers: Dict[str, Tuple[ast.FunctionDef
                         if clash:
                             ren = {nm_: f"{nm_}_{hdef.name.strip('_')}" for nm_ in clash}
                             arg_uses = {nm_ for t in pre for nm_ in _names(t.value)}
+                            def _rename_scoped(node, active):
+                                # a local function (or lambda) that binds the name itself has its own variable of that name
+                                if isinstance(node, (ast.FunctionDef, ast.AsyncFunctionDef, ast.Lambda)):
+                                    own = {a_.arg for a_ in ast.walk(node.args) if isinstance(a_, ast.arg)}
+                                    if not isinstance(node, ast.Lambda):
+                                        own |= {x_.id for b_ in node.body for x_ in ast.walk(b_) if isinstance(x_, ast.Name) and isinstance(x_.ctx, (ast.Store, ast.Del))}
+                                    active = {k_: v_ for k_, v_ in active.items() if k_ not in own}
+                                if isinstance(node, ast.Name) and node.id in active:
+                                    node.id = active[node.id]
+                                for c_ in ast.iter_child_nodes(node):
+                                    _rename_scoped(c_, active)
+
                             for s_ in body:
-                                for n_ in ast.walk(s_):
-                                    if isinstance(n_, ast.Name) and n_.id in ren:
-                                        n_.id = ren[n_.id]
+                                _rename_scoped(s_, ren)
                             for t in pre:
                                 if t.targets[0].id in ren:
                                     t.targets[0].id = ren[t.targets[0].id]
@@ -1710,7 +1800,8 @@ def canonicalise(tree: ast.Module, ref_funcs: Optional[Set[str]], ref_consts: Op
                 st.value = ast.fix_missing_locations(_ExprNorm().visit(st.value))
             if isinstance(st, (ast.Assign, ast.AnnAssign)):
                 tg = st.targets[0] if isinstance(st, ast.Assign) and len(st.targets) == 1 else (st.target if isinstance(st, ast.AnnAssign) else None)
-                if isinstance(tg, ast.Name) and tg.id not in ref_consts and st.value is not None and isinstance(st.value, (ast.Dict, ast.List, ast.Tuple, ast.Set, ast.Constant)):
+                if isinstance(tg, ast.Name) and tg.id not in ref_consts and st.value is not None and (isinstance(st.value, (ast.Dict, ast.List, ast.Tuple, ast.Set, ast.Constant)) or (isinstance(st.value, ast.Attribute) and _alias_expr(st.value))):
+                    # (a literal table, or another name for an attribute of something — `KINDS = Source.__args__`)
                     consts[tg.id] = st.value
         # a constant bound twice at module level, or rebound in a function, is not a constant
         for nm in list(consts):
@@ -1737,6 +1828,8 @@ def canonicalise(tree: ast.Module, ref_funcs: Optional[Set[str]], ref_consts: Op
             if ".<locals>." in q or q in ref_funcs:
                 continue
             decos = {ast.unparse(d).split("(")[0].split(".")[-1] for d in fn.decorator_list}
+            if not fn.args.args and not fn.args.kwonlyargs and not fn.args.vararg and not fn.args.kwarg:
+                decos -= {"lru_cache", "cache"}  # a memoised constant (a table built on first use) is the constant
             if decos - {"staticmethod", "classmethod"}:
                 continue
             if "classmethod" in decos:
